@@ -14,21 +14,8 @@
      chown   <path> <uid> <gid>     chown(path, uid, gid)
    <path>, <target>, <data> are hex ("-" = empty); numbers are decimal.
 
-   Every case runs in a fresh scratch directory S (mkdtemp under /dev/shm or
-   $TMPDIR), removed afterwards, laid out as
-
-     S/                 0755  ours       the model's "/"
-     S/root/            0755  ours       the current directory of the operations
-     S/outside/         0755  ours
-     S/outside/f        0644  ours       contents "out"
-     S/foreign/         1777  not ours   (like /tmp)
-     S/foreign/rf       0644  not ours   contents "rf"
-     S/foreign/rd/      0755  not ours
-     S/foreign/rd/g     0666  not ours   contents "g"
-     S/foreign/ww/      0777  not ours
-     S/foreign/ww/h     0644  not ours   contents "h"
-     S/foreign/priv/    0700  not ours
-     S/foreign/priv/s   0644  not ours   contents "s"
+   Every case runs in a fresh scratch directory S (layout: see drv_fsutil.h,
+   which holds the pieces shared with drv_rdr.c).
 
    When started as root (the normal case) the parent prepares S, forks, and
    the child chroot()s into S (so that "/" really is S: absolute paths and
@@ -58,19 +45,13 @@
 #include <errno.h>
 #include <fcntl.h>
 #include <unistd.h>
-#include <dirent.h>
-#include <grp.h>
 #include <utime.h>
 #include <time.h>
 #include <sys/stat.h>
 #include <sys/types.h>
 #include <sys/wait.h>
 #include "drv_util.h"
-
-#define NOBODY 65534
-
-static time_t T0;
-static int privileged;
+#include "drv_fsutil.h"
 
 /* ---- the operations, composed exactly as in lib/lha_arch_unix.c ---- */
 
@@ -198,146 +179,13 @@ static void run_ops(char **tok, int n)
 	}
 }
 
-/* ---- scratch directory ---- */
-
-static void put_file(const char *path, const char *data, mode_t mode)
-{
-	int fd = open(path, O_CREAT|O_WRONLY|O_EXCL, 0600);
-	if (fd < 0) { perror(path); exit(3); }
-	if (write(fd, data, strlen(data)) < 0) exit(3);
-	fchmod(fd, mode);
-	close(fd);
-}
-
-static void make_dir(const char *path, mode_t mode)
-{
-	if (mkdir(path, 0700) != 0) { perror(path); exit(3); }
-	chmod(path, mode);
-}
-
-static void own(const char *path)
-{
-	if (privileged && chown(path, NOBODY, NOBODY) != 0) { perror("chown"); exit(3); }
-}
-
-/* called with the scratch directory as current directory */
-static void populate(void)
-{
-	umask(0);
-	make_dir("root", 0755); own("root");
-	make_dir("outside", 0755); own("outside");
-	put_file("outside/f", "out", 0644); own("outside/f");
-	make_dir("foreign", 0700);
-	put_file("foreign/rf", "rf", 0644);
-	make_dir("foreign/rd", 0700);
-	put_file("foreign/rd/g", "g", 0666);
-	chmod("foreign/rd", 0755);
-	make_dir("foreign/ww", 0777);
-	put_file("foreign/ww/h", "h", 0644);
-	make_dir("foreign/priv", 0700);
-	put_file("foreign/priv/s", "s", 0644);
-	chmod("foreign", 01777);
-	chmod(".", 0755); own(".");
-}
-
-/* ---- dump and removal, relative to directory file descriptors ---- */
-
-static int cmp_names(const void *a, const void *b)
-{
-	return strcmp(*(char *const *) a, *(char *const *) b);  /* bytewise, unsigned */
-}
-
-static void print_path(const char *rel, size_t len)
-{
-	print_hex((const uint8_t *) rel, len);
-}
-
-/* rel: location below S of the entry (dirfd, name); rel_len its length */
-static void dump(int dirfd, const char *name, char **rel, size_t rel_len, size_t *rel_cap)
-{
-	struct stat st;
-	if (fstatat(dirfd, name, &st, AT_SYMLINK_NOFOLLOW) != 0) { printf(" ?"); return; }
-	if (S_ISLNK(st.st_mode)) {
-		char *buf = malloc((size_t) st.st_size + 2);
-		ssize_t k = readlinkat(dirfd, name, buf, (size_t) st.st_size + 1);
-		printf(" L "); print_path(*rel, rel_len); putchar(' ');
-		print_hex((uint8_t *) buf, k < 0 ? 0 : (size_t) k);
-		free(buf);
-		return;
-	}
-	if (S_ISREG(st.st_mode) || S_ISDIR(st.st_mode)) {
-		printf(" %c ", S_ISDIR(st.st_mode) ? 'D' : 'F');
-		print_path(*rel, rel_len);
-		printf(" %o ", (unsigned) (st.st_mode & 07777));
-		if (st.st_mtime >= T0) printf("now"); else printf("%lld", (long long) st.st_mtime);
-	} else {
-		printf(" ? "); print_path(*rel, rel_len);
-		return;
-	}
-	if (S_ISREG(st.st_mode)) {
-		int fd;
-		uint8_t *buf = malloc((size_t) st.st_size + 1);
-		ssize_t k;
-		if (!privileged) fchmodat(dirfd, name, 0600, 0);
-		fd = openat(dirfd, name, O_RDONLY|O_NOFOLLOW);
-		k = fd < 0 ? 0 : read(fd, buf, (size_t) st.st_size);
-		putchar(' ');
-		print_hex(buf, k < 0 ? 0 : (size_t) k);
-		if (fd >= 0) close(fd);
-		free(buf);
-	} else {
-		int fd; DIR *d; struct dirent *e;
-		char **names = NULL; size_t n = 0, cap = 0, i;
-		if (!privileged) fchmodat(dirfd, name, 0700, 0);
-		fd = openat(dirfd, name, O_RDONLY|O_DIRECTORY|O_NOFOLLOW);
-		if (fd < 0 || (d = fdopendir(fd)) == NULL) { printf(" ?"); return; }
-		while ((e = readdir(d)) != NULL) {
-			if (!strcmp(e->d_name, ".") || !strcmp(e->d_name, "..")) continue;
-			if (n == cap) { cap = cap ? 2 * cap : 16; names = realloc(names, cap * sizeof *names); }
-			names[n++] = strdup(e->d_name);
-		}
-		qsort(names, n, sizeof *names, cmp_names);
-		for (i = 0; i < n; ++i) {
-			size_t l = strlen(names[i]), nl = rel_len + (rel_len ? 1 : 0) + l;
-			if (nl + 1 > *rel_cap) { *rel_cap = 2 * (nl + 1); *rel = realloc(*rel, *rel_cap); }
-			if (rel_len) (*rel)[rel_len] = '/';
-			memcpy(*rel + rel_len + (rel_len ? 1 : 0), names[i], l);
-			dump(fd, names[i], rel, nl, rel_cap);
-			free(names[i]);
-		}
-		free(names);
-		closedir(d);
-	}
-}
-
-static void remove_tree(int dirfd, const char *name)
-{
-	struct stat st;
-	if (fstatat(dirfd, name, &st, AT_SYMLINK_NOFOLLOW) != 0) return;
-	if (S_ISDIR(st.st_mode)) {
-		int fd; DIR *d; struct dirent *e;
-		fchmodat(dirfd, name, 0700, 0);
-		fd = openat(dirfd, name, O_RDONLY|O_DIRECTORY|O_NOFOLLOW);
-		if (fd >= 0 && (d = fdopendir(fd)) != NULL) {
-			while ((e = readdir(d)) != NULL) {
-				if (!strcmp(e->d_name, ".") || !strcmp(e->d_name, "..")) continue;
-				remove_tree(fd, e->d_name);
-			}
-			closedir(d);
-		}
-		unlinkat(dirfd, name, AT_REMOVEDIR);
-	} else {
-		unlinkat(dirfd, name, 0);
-	}
-}
-
 /* ---- one case ---- */
 
 static void run_case(char *line)
 {
 	char **tok = NULL; int n = 0, cap = 0, first = 1, as_root = 0;
-	char tmpl[4096]; const char *base = "/dev/shm"; struct stat st;
-	char *t, *scratch; int home;
+	char scratch[4096];
+	char *t; int home;
 	for (t = strtok(line, " \n"); t; t = strtok(NULL, " \n")) {
 		if (n == cap) { cap = cap ? 2 * cap : 32; tok = realloc(tok, cap * sizeof *tok); }
 		tok[n++] = t;
@@ -346,14 +194,7 @@ static void run_case(char *line)
 	if (n > 1 && !strcmp(tok[1], "root")) { as_root = 1; first = 2; }
 	if (as_root && !privileged) { puts("ERR not privileged"); free(tok); return; }
 
-	if (stat(base, &st) != 0 || !S_ISDIR(st.st_mode) || access(base, W_OK|X_OK) != 0)
-		base = getenv("TMPDIR") ? getenv("TMPDIR") : "/tmp";
-	snprintf(tmpl, sizeof tmpl, "%s/fsdrv.XXXXXX", base);
-	scratch = mkdtemp(tmpl);
-	if (!scratch) { perror("mkdtemp"); exit(3); }
-	home = open(".", O_RDONLY|O_DIRECTORY);
-	if (chdir(scratch) != 0) { perror("chdir"); exit(3); }
-	populate();
+	home = fsu_enter_scratch(scratch, "fsdrv");
 	fflush(stdout);
 
 	if (privileged) {
@@ -361,12 +202,7 @@ static void run_case(char *line)
 		int status = 0;
 		if (pid < 0) { perror("fork"); exit(3); }
 		if (pid == 0) {
-			if (chroot(".") != 0 || chdir("/root") != 0) _exit(4);
-			if (!as_root) {
-				if (setgroups(0, NULL) != 0 || setgid(NOBODY) != 0 || setuid(NOBODY) != 0) _exit(5);
-				if (geteuid() != NOBODY || setuid(0) == 0) _exit(6);
-			}
-			umask(022);
+			fsu_jail(as_root);
 			run_ops(tok + first, n - first);
 			fflush(stdout);
 			_exit(0);
@@ -381,31 +217,18 @@ static void run_case(char *line)
 	}
 
 	/* dump and remove, from the parent of the scratch directory */
-	{
-		char *slash = strrchr(scratch, '/');
-		int pfd; size_t rel_cap = 256; char *rel = malloc(rel_cap);
-		*slash = 0;
-		pfd = open(scratch[0] ? scratch : "/", O_RDONLY|O_DIRECTORY);
-		if (home >= 0) { if (fchdir(home) != 0) (void) chdir("/"); close(home); } else (void) chdir("/");
-		printf("|");
-		dump(pfd, slash + 1, &rel, 0, &rel_cap);
-		putchar('\n');
-		remove_tree(pfd, slash + 1);
-		close(pfd);
-		free(rel);
-	}
+	fsu_dump_and_remove(scratch, home);
 	free(tok);
 }
 
 int main(int argc, char **argv)
 {
 	char *line = NULL; size_t cap = 0; ssize_t n;
-	privileged = geteuid() == 0;
+	fsu_init();
 	if (argc > 1 && !strcmp(argv[1], "--probe")) {
 		puts(privileged ? "chroot" : "plain");
 		return 0;
 	}
-	T0 = time(NULL) - 2;
 	while ((n = getline(&line, &cap, stdin)) > 0) {
 		run_case(line);
 		fflush(stdout);
